@@ -69,12 +69,24 @@ func genOn(r *Rand, la, ra string, lcols, rcols []string, lstr, rstr string, tag
 		return Cmp(op, a, b)
 	}
 	k := 1 + r.Intn(3)
-	equi := r.Chance(55)
+	equi := r.Chance(45)
+	// mixed: an equality next to order comparisons, all joined by AND — the equality must not make the whole ON a hash key
+	mixed := !equi && r.Chance(40)
+	if mixed && k == 1 {
+		k = 2
+	}
+	eqAt := r.Intn(k)
 	var e *Expr
 	for i := 0; i < k; i++ {
 		op := "="
 		if !equi {
 			op = Pick(r, cmpOps)
+		}
+		if mixed {
+			op = Pick(r, []string{"<", "<=", ">", ">=", "!="})
+			if i == eqAt {
+				op = "="
+			}
 		}
 		*tags = append(*tags, "on:"+op)
 		c := cmp(op)
@@ -82,7 +94,7 @@ func genOn(r *Rand, la, ra string, lcols, rcols []string, lstr, rstr string, tag
 			e = c
 			continue
 		}
-		if equi || r.Chance(60) {
+		if equi || mixed || r.Chance(60) {
 			e = And(e, c)
 		} else {
 			e = Or(e, c)
@@ -92,6 +104,9 @@ func genOn(r *Rand, la, ra string, lcols, rcols []string, lstr, rstr string, tag
 	*tags = append(*tags, fmt.Sprintf("on:conjuncts:%d", k))
 	if equi {
 		*tags = append(*tags, "on:equi")
+	}
+	if mixed {
+		*tags = append(*tags, "on:equality-and-order-comparisons")
 	}
 	return e
 }
